@@ -129,4 +129,11 @@ P("C06", "other", "linearity (typestate) dataflow over MIR for by-value entries 
   "path; clear_no_drop only after such a copy-out; cache Drop / clear drain the table through a sink, seal freed once afterwards; "
   "Entry::clone uses Clone::clone on the source's slots.",
   TB + " Not decided: unwind paths (leaks allowed), K/V Drop impls.", "DESIGN.md 3/C06")
+P("C04", "other", "term analysis of every table call site (hash/eq agreement) + abstract interpretation of insertion sites",
+  "hashbrown does the probing; what lru-mem must get right is decided: every lookup/removal hashes k with the cache's own hash builder "
+  "through the key-hash function and compares with the same k through Borrow+Eq; every table insert (and every caller that passes a "
+  "precomputed hash) uses the hash of the inserted entry's own key; an entry is inserted into the cache's table only for a key the "
+  "table just reported absent / removed, or into a table created empty by the operation (E3); results are projected from the one "
+  "entry the lookup produced; a rejected insertion removed nothing, the duplicate leaves before eviction, reallocation keeps all "
+  "entries (shared E3 obligations).", E3TB + " Not decided: hashbrown internals; Borrow coherence of user types.", "DESIGN.md 3/C04")
 NOT_CLAIMED = {}
